@@ -6,19 +6,26 @@ import NLE.Gen.Shape
 namespace NLE.Theorems.C19
 open NLE NLE.Life
 
-/-- A promotion context is cancelled only after its term has ended or its callback has returned: while the
-    instance still leads that term and the callback is running, a cancellation is not an execution of the model. -/
+/-- A promotion context is cancelled only after its term has ended, its callback has returned, or the run itself is
+    being ended (a stop call has begun and its critical section is about to lower the flag; the application has
+    cancelled the context it passed to Start; the library has reported the term's duration, which it does inside the
+    critical section that ends the term): while the instance still leads that term, with none of these under way,
+    and the callback is running, a cancellation is not an execution of the model. -/
 theorem not_cancelled_while_leading {x x' : Inst} {cid : Nat} (h : stepCtxDone x cid = .ok x') :
-    ∃ c ∈ x.ctxs, c.cid = cid ∧ (c.termOver = true ∨ c.cbRunning = false) := by
+    ∃ c ∈ x.ctxs, c.cid = cid ∧
+      (c.termOver = true ∨ c.cbRunning = false ∨ x.stopPendingTrans = true ∨ x.ctxCancelled = true ∨ x.ending = true) := by
   unfold stepCtxDone at h
   split at h
   · rename_i c hc
     split at h
     · rename_i hg
       refine ⟨c, List.mem_of_find?_eq_some hc, by simpa using List.find?_some hc, ?_⟩
-      rcases hg with hg | hg
+      rcases hg with hg | hg | hg | hg | hg
       · exact Or.inl hg
-      · exact Or.inr (by simpa using hg)
+      · exact Or.inr (Or.inl (by simpa using hg))
+      · exact Or.inr (Or.inr (Or.inl hg))
+      · exact Or.inr (Or.inr (Or.inr (Or.inl hg)))
+      · exact Or.inr (Or.inr (Or.inr (Or.inr hg)))
     · cases h
   · cases h
 
